@@ -57,5 +57,16 @@ def run(rep, tier, seed, replay):
         found = True
         rep.violation({"kind": "history", "oracle": "counters differ from the model's for the observed history (e.g. a connection under the limit refused, or one over it served)",
                        "case": {"line": cases[i], "format": fmt}, "impl": impl[i], "model": model[i], "failing_cases": len(mm)})
+    # the TCP processor's upstream connection counters (total = destroyed, active = 0 at quiescence), with refused dials
+    res2 = differential(rep, PROP, "c06tcp", seed + 3, 40 if tier == "quick" else 2000, tier)
+    c2, i2, m2 = res2["cases"], res2["impl"], res2["models"]["c06tcp"]
+    bad2 = [i for i in range(len(c2)) if "upstream=ok" not in i2[i]]
+    add_corr(rep, "TCP processor: upstream connection counters conserved after histories with refused dials and host removal", res2, bad2, len(set(c2)))
+    if bad2 and not found:
+        i = min(bad2, key=lambda j: len(c2[j]))
+        found = True
+        rep.violation({"kind": "history", "oracle": "TCP processor upstream counters at quiescence: " + i2[i].split("upstream=")[-1],
+                       "case": {"line": c2[i], "format": "policy backends # o open, c<i> close, d<b>/u<b> backend refuses/accepts, r<b>/a<b> remove/add host (harness c06tcp -in <file>)"},
+                       "impl": i2[i], "model": m2[i], "failing_cases": len(bad2)})
     if not pr["ok"] and not found:
         rep.violation({"kind": "broken-tie", "theorem": pr.get("broken"), "detail": pr.get("tail"), "searched": "conservation holds on every history"}, found_input=False)
